@@ -207,6 +207,9 @@ def judge(s, sink):
             try:
                 Model = fsic.build_model(symbols)
                 Model(range(3))
+                want_endo = [x.name for x in symbols if x.type.name == 'ENDOGENOUS']
+                if list(Model.ENDOGENOUS) != want_endo or Model.CODE != fsic.build_model_definition(symbols):
+                    v.append(('build-wrong-class', want_endo, list(Model.ENDOGENOUS), 'build_model returned a class that is not the class of these symbols'))
             finally:
                 sys.setprofile(None)
     except CaseTimeout:
@@ -331,11 +334,16 @@ def verbatim_inputs():
                 forms.append('`' + body + '`')
             for f in forms:
                 for tr in TRAILERS:
-                    for rest in ('', '\nX = 1'):
+                    for rest in ('', '\nX = 1', '\nY = exp(X) + %s' % (a or 'X')):
                         s = f + tr + rest
                         if s not in seen:
                             seen.add(s)
                             yield s
+            # ... and after an equation that uses the same name (statements that compile one by one need not compile together)
+            s = 'Y = exp(X) + %s\n' % (a or 'X') + forms[0]
+            if s not in seen:
+                seen.add(s)
+                yield s
 
 
 # --------------------------------------------------------------------------- enumeration
@@ -405,9 +413,14 @@ def blocks(tier, seed):
 
 
 def run_inputs(inputs, acc, sink, kind):
+    timeouts = 0
     for s in inputs:
+        if timeouts >= 20:
+            acc.caps.append('block stopped after 20 inputs on which parse_model did not terminate (each costs a 2 s alarm); the violation is reported')
+            break
         acc.evaluations += 1
         label, v = judge(s, sink)
+        timeouts += label == 'timeout'
         acc.outcome(label)
         if label != 'own:ParserError' or len(s) == 0:
             acc.nontrivial += 1
